@@ -71,6 +71,22 @@ def _sequence(ctx, role, classes, cat, seqlen):
         rig.shutdown()
         return
     handler = rig.handler
+    if rng.random() < 0.25:
+        # a handler that was disabled and enabled again (second, third enable period) answers like a fresh one
+        ok = True
+        for _ in range(rng.choice([1, 2])):
+            ok = rig.close(5.0)
+            if not ok:
+                break
+            handler.enable()
+            if not rig.establish():
+                ok = False
+                break
+        if not ok:
+            ctx.unsure("precondition failed: the handler did not come back after disable + enable (C07/C09/C20 judge that)")
+            rig.shutdown()
+            return
+        ctx.count("sequences.after_disable_and_enable")
     handled = _callbacks(handler, classes)
     unhandled = sorted(k for k in classes if k not in handled and k[1] % 2 == 1)
     sysgen = gen.system_bytes(rng, 0x40000000 + rng.randrange(1 << 16) * 64)
